@@ -130,7 +130,7 @@ void c15_history(vf::Tape & t, vf::Ctx & ctx)
   // W[i]: number of operations (with multiplicity) that produced register i.  x*x doubles every error by
   // conditioning alone, so the "n" of the statement is the size of the element's expression, not the program counter.
   double W[R] = {3, 3, 3, 3};
-  int touched[R] = {0, 0, 0, 0}, inv_cnt = 0, exp_cnt = 0, clamped = 0, wcapped = 0;
+  int touched[R] = {0, 0, 0, 0}, inv_cnt = 0, exp_cnt = 0, clamped = 0, wcapped = 0, self_alias = 0;
   double worst_unit = 0, worst_acc = 0, maxw = 0;
   for (int n = 1; n <= nops; ++n) {
     const int a = static_cast<int>(t.choice(R)), b = static_cast<int>(t.choice(R)), c = static_cast<int>(t.choice(R)), k = static_cast<int>(t.choice(R));
@@ -190,7 +190,10 @@ void c15_history(vf::Tape & t, vf::Ctx & ctx)
       case 1: x = E[b].inverse(); ++inv_cnt; break;
       case 2: x = G::exp(T[k]); ++exp_cnt; break;
       case 3: x = E[b] + T[k]; ++exp_cnt; break;
-      case 4: x = E[a]; x *= E[b]; break;
+      case 4:
+        // in place; with b == a the right operand is the destination itself (x *= x)
+        if (a == b) { x = E[a]; x *= x; ++self_alias; } else { x = E[a]; x *= E[b]; }
+        break;
       case 5: x = E[a]; x += T[k]; ++exp_cnt; break;
       case 6: x = E[b].template cast<double>(); break;
       case 7: x = smooth::composition(E[b], E[c], smooth::inverse(E[b])); ++inv_cnt; break;
@@ -222,6 +225,7 @@ void c15_history(vf::Tape & t, vf::Ctx & ctx)
   ctx.set_nontrivial(mx >= 10 && inv_cnt >= 1 && exp_cnt >= 1);
   if (clamped) ctx.label("history:clamped-to-moderate-translation");
   if (wcapped) ctx.label("history:operation-count-capped-at-1e5");
+  if (self_alias) ctx.label("history:self-aliased-in-place-product");
   ctx.label(std::string("history:unit-margin") + bucket(worst_unit));
   ctx.label(std::string("history:accuracy-margin") + bucket(worst_acc));
   ctx.label(maxw >= 1000 ? "history:element-ops>=1000" : (maxw >= 100 ? "history:element-ops>=100" : "history:element-ops<100"));
